@@ -6,12 +6,12 @@ CORE = {
  "C01": "`GaussianModes.displace/squeeze/phase_shift/beamsplitter/loss/thermal_loss/init_thermal/add_mode` = documented Bogoliubov / channel action on every entry of N, M, alpha for symbolic register size and positions; Fock `apply_twomode_gate` axis bookkeeping (ghost axis tracker, sizes 2-5, every ordered pair, pure/mixed); Fock wrapper: every method addresses the simulator through the mode map; bosonic simulator: every Gaussian operation = documented affine map on every component; bosonic `prepare_gaussian_state` for every ordered mode list",
  "C02": "9 gate decompositions (incl. sMZgate) x mode orders x dagger fold to the documented symplectic action for every parameter; `Gate.apply` first-parameter convention per class; `Gaussian._decompose` diagonal branches with symbolic variances",
  "C03": "`Gate.merge` for 10 families, `Channel.merge` (Loss, ThermalLoss, MSgate) = composition, operands untouched; `optimize_circuit` on fixed shapes and against abstract operations with a free non-commutative merge (call order, nothing lost, maximal merging); abstract operations with measured-parameter dependencies",
- "C04": "shape-bounded contracts on ABSTRACT commands (dependency sets): `list_to_DAG`, `DAG_to_list`, `group_operations`, `optimize_circuit` keep every dependent pair in order; `par_regref_deps` over the parameter grammar; `gaussian_merge` and GBS collection bounded",
+ "C04": "`Command.get_dependencies` = parameter dependencies UNION targets (the contract the abstract commands assume); shape-bounded contracts on ABSTRACT commands (dependency sets): `list_to_DAG`, `DAG_to_list`, `group_operations`, `optimize_circuit` keep every dependent pair in order; `par_regref_deps` over the parameter grammar; `gaussian_merge` and GBS collection bounded",
  "C05": "frame clauses of every Gaussian mutator (all entries outside the target rows/columns unchanged); Fock `prepare_multimode` / `partial_trace` / `mix` with labelled tensors (exactly the targets traced out, every other mode in place); bosonic frame clauses and general-dyne conditioning; Fock `dealloc` / `alloc`",
  "C06": "units / storage / collation of outcomes; inputs handed to the RNG are the Born distribution (Gaussian dyne, Fock sampled homodyne); distributional claims bounded; bosonic `post_select_generaldyne` (Schur complement, bilinear reweighting); sampler arguments of Gaussian photon counting",
  "C07": "hermitian(N), symmetric(M) preserved by every mutator; loss never increases n; physicality of produced states bounded; bosonic measurement-based squeezing is a completely positive channel",
  "C08": "`ModeMap` invariants after every public operation for every history; deleted modes rejected; Fock wrapper translates every mode argument; `FockBackend.state` returns the requested modes; bosonic `add_mode` / `del_mode`; Fock `dealloc` for every ordered mode list",
- "C09": "`Gate.apply`/merge/optimise/measurement `_apply` leave operations untouched (also when the backend raises); compositional runs bounded; `BaseEngine._run` / reset on abstract segments; `Program(parent)` shares nothing mutable; `_clear_regrefs`",
+ "C09": "`Gate.apply`/merge/optimise/measurement `_apply` leave operations untouched (also when the backend raises); compositional runs bounded; `BaseEngine._run` / reset on abstract segments (successors holding stale outcomes included); `Program(parent)` shares nothing mutable; `_clear_regrefs`",
  "C10": "parameter evaluation at application time, most recent outcome, `par_evaluate`; circuits and functions of complex outcomes bounded; dependencies over the parameter grammar; mixed measured / free atoms",
  "C11": "row-operation helpers for symbolic matrices; `GaussianUnitary.compile` net action on fixed shapes incl. elision tolerance; `gaussian_merge` bounded (opaque gates interpreted as fixed unitaries, exact)",
  "C12": "`Range/Ranges`, `validate_parameters`, `Borealis.update_params` phase compensation; X-series compilers and device specification bounded",
